@@ -559,6 +559,16 @@ pub fn check_c13(case: &Case, st: &mut Stats) -> Verdict {
                     Err(m) => return fail(m, &full[..t]),
                 }
             }
+            // every short suffix of the finished file (a trailer that lost bytes at its front)
+            for l in 0..=full.len().min(30) {
+                st.evaluations += 1;
+                let sfx = &full[full.len() - l..];
+                match open_matches(sfx) {
+                    Ok(true) => st.c.inc("suffix.accepted"),
+                    Ok(false) => st.c.inc("suffix.rejected"),
+                    Err(m) => return fail(m, sfx),
+                }
+            }
             // a sample of crash points reproduced literally by crashing the writer
             let mut rng = Rng::new(h);
             if !c.v1 && full.len() > 0 {
